@@ -138,9 +138,9 @@ func runC18Local(c c18Local) error {
 }
 
 func TestC18LocalAddr(t *testing.T) {
-	vh.Check(t, 6, 80, func(t *rapid.T) {
+	vh.Check(t, 6, 30, func(t *rapid.T) {
 		c := c18Local{LocalAddr: rapid.SampledFrom([]string{"", "::", "::", "0.0.0.0"}).Draw(t, "laddr"), NoKeep: rapid.Bool().Draw(t, "nokeep"),
-			TTLms: rapid.SampledFrom([]int{0, 0, 30}).Draw(t, "ttl"), Hits: rapid.IntRange(40, 80).Draw(t, "hits"), Workers: rapid.IntRange(1, 4).Draw(t, "workers"),
+			TTLms: rapid.SampledFrom([]int{0, 0, 30}).Draw(t, "ttl"), Hits: rapid.IntRange(24, 48).Draw(t, "hits"), Workers: rapid.IntRange(1, 4).Draw(t, "workers"),
 			LocalLast: rapid.IntRange(0, 4).Draw(t, "locallast") == 0}
 		vh.Case("C18.localaddr", fmt.Sprintf("%+v", c), c.LocalAddr != "" && !c.LocalLast, "laddr:"+c.LocalAddr)
 		vh.Sample("C18.localaddr", c.LocalAddr != "", c)
